@@ -157,14 +157,14 @@ CHECKS = {
     },
     'C09': {
         'level': 'other',
-        'technique': 'schema typing of the prove_tautology glue under stage contracts + def-use / reaching-store analysis over the saturation loop (ast)',
-        'text': 'Two structural clauses. (1) The glue of prove_tautology is type-checked like a lemma under the contracts of the stages: on '
+        'technique': 'schema typing of the prover glue under stage contracts, shape (refinement) typing of to_cnf, fold-direction rule, def-use / reaching-store analysis over the saturation loop (ast)',
+        'text': 'Four structural clauses. (3) to_cnf returns a term in conjunctive normal form on every path, by induction on its recursion (shape typing LIT < CLAUSE < CNF with the isinstance tests as refinements). (4) The proofs of trivial clauses are folded in the nesting order of clause_conjunctionto_pattern. (1) The glue of prove_tautology is type-checked like a lemma under the contracts of the stages: on '
                 'each returning path the proof returned with True concludes literally the pattern, with False its negation. (2) A necessary '
                 'clause of completeness of the resolution stage: the nested saturation loop forms every pair (same growing '
                 'list in both loops, diagonal guard, resolvents rejoin the list) and no assignment in the inner loop rebinds the outer '
                 'loop element on a path that reads it again. The stage lemmas are schema-checked under C10. Equivalence of each normal '
                 'form, proof reconstruction and "declines only when contingent" are data-dependent and are NOT decided.',
-        'note': 'Trusted: python ast; the stage contracts as documented in tautology.py. Two clauses; the decision-procedure property as a whole is out of reach of static analysis.',
+        'note': 'Trusted: python ast; the stage contracts as documented in tautology.py. Four clauses; the decision-procedure property as a whole is out of reach of static analysis.',
         'design_ref': 'DESIGN.md section 3, C09',
     },
     'C15': {
